@@ -23,7 +23,7 @@ from concurrent.futures import ThreadPoolExecutor
 
 V = os.path.dirname(os.path.dirname(os.path.abspath(__file__)))
 PY = '/venv/bin/python'
-OUT = '/tmp/fbmut'
+OUT = '/tmp/fbmut' + ('' if os.environ.get('MUT_MODE', 'basic') == 'basic' else '_' + os.environ['MUT_MODE'])
 MODS = ['build_dirs.py', 'cache.py', 'created_files.py', 'file_backups.py',
         'file_builder.py', 'json_util.py', 'operation.py',
         'simple_operation_executor.py']
@@ -49,6 +49,38 @@ def sites(tree):
             out.append(('int', i))
         if isinstance(n, (ast.Break, ast.Continue)):
             out.append(('brk', i))
+        if MODE == 'operands':
+            # wrong-but-plausible operand: a sibling attribute of the same
+            # object, a sibling method, swapped arguments
+            if isinstance(n, ast.Attribute) and isinstance(
+                    n.value, ast.Name) and n.attr in SIBLING:
+                out.append(('attr', i))
+            if isinstance(n, ast.Call) and isinstance(
+                    n.func, ast.Attribute) and n.func.attr in CALLSWAP:
+                out.append(('call', i))
+            if isinstance(n, ast.Call) and len(n.args) == 2 and not any(
+                    isinstance(a, ast.Starred) for a in n.args) and \
+                    not n.keywords and ast.dump(n.args[0]) != ast.dump(
+                        n.args[1]) and 'logger' not in ast.unparse(n.func) \
+                    and 'format' not in ast.unparse(n.func):
+                out.append(('swapargs', i))
+    if MODE == 'operands':
+        # adjacent statements swapped (simple statements in one block)
+        for f in nodes:
+            for fld in ('body', 'orelse', 'finalbody'):
+                lst = getattr(f, fld, None)
+                if not isinstance(lst, list):
+                    continue
+                for a, b in zip(lst, lst[1:]):
+                    if all(isinstance(x, (ast.Expr, ast.Assign,
+                                          ast.AugAssign)) for x in (a, b)) \
+                            and not any(isinstance(
+                                x, ast.Expr) and isinstance(
+                                    x.value, ast.Constant) for x in (a, b)) \
+                            and 'logger' not in ast.unparse(a) and \
+                            'logger' not in ast.unparse(b):
+                        out.append(('swapstmt', nodes.index(a)))
+        return out
     # statement deletion: expression statements and attribute/subscript
     # assignments inside function bodies
     for f in nodes:
@@ -73,6 +105,37 @@ def sites(tree):
                     out.append(('del', nodes.index(st)))
     return out
 
+
+MODE = os.environ.get('MUT_MODE', 'basic')
+# sibling attributes (one is plausibly written for the other)
+_SIB = [('_old_cache', '_new_cache'), ('_removed_dirs', '_maybe_removed_dirs'),
+        ('_removed_dirs', '_removed_files'),
+        ('_error_created_dirs', '_maybe_removed_dirs'),
+        ('_created_dirs_map', '_build_dir_counts'),
+        ('_files', '_norm_cased_files'), ('_files', '_subbuilds'),
+        ('_norm_cased_files', '_norm_cased_dirs'),
+        ('raised', 'setup_failed'), ('raised', 'is_finished'),
+        ('args', 'kwargs'), ('return_value', 'file_comparison_result'),
+        ('_func_versions', '_operation_versions'),
+        ('_files_lock', '_subbuilds_lock'),
+        ('_exists_dirs', '_removed_dirs')]
+SIBLING = {}
+for a_, b_ in _SIB:
+    SIBLING.setdefault(a_, b_)
+    SIBLING.setdefault(b_, a_)
+_CS = [('add', 'discard'), ('append', 'remove'), ('get_file', 'get_norm_cased_file'),
+       ('created_file', 'created_norm_cased_file'),
+       ('has_norm_cased_file', 'created_norm_cased_file'),
+       ('is_file', 'is_dir'), ('isfile', 'isdir'),
+       ('start_building_file', 'finish_building_file'),
+       ('started_building_file', 'finished_building_file'),
+       ('error_building_file', 'finished_building_file'),
+       ('get_func_version', 'get_operation_version'),
+       ('dirname', 'basename'), ('normcase', 'normpath')]
+CALLSWAP = {}
+for a_, b_ in _CS:
+    CALLSWAP.setdefault(a_, b_)
+    CALLSWAP.setdefault(b_, a_)
 
 CMP = {ast.Eq: ast.NotEq, ast.NotEq: ast.Eq, ast.Lt: ast.LtE, ast.LtE: ast.Lt,
        ast.Gt: ast.GtE, ast.GtE: ast.Gt, ast.In: ast.NotIn, ast.NotIn: ast.In,
@@ -106,6 +169,20 @@ def apply(tree, kind, idx):
                 if isinstance(val, list) and n in val:
                     val[val.index(n)] = ast.Continue() if isinstance(
                         n, ast.Break) else ast.Break()
+    elif kind == 'attr':
+        n.attr = SIBLING[n.attr]
+    elif kind == 'call':
+        n.func.attr = CALLSWAP[n.func.attr]
+    elif kind == 'swapargs':
+        n.args = [n.args[1], n.args[0]]
+    elif kind == 'swapstmt':
+        for p in nodes:
+            for fld, val in ast.iter_fields(p):
+                if isinstance(val, list) and n in val:
+                    i0 = val.index(n)
+                    if i0 + 1 < len(val):
+                        val[i0], val[i0 + 1] = val[i0 + 1], val[i0]
+                    return ast.fix_missing_locations(tree)
     elif kind == 'del':
         for p in nodes:
             for fld, val in ast.iter_fields(p):
